@@ -55,33 +55,57 @@ A_FifoAmongEquals ==
         => \E a, b \in 1..Len(q) : a < b /\ q[a][2] = out'[i][1] /\ q[b][2] = out'[j][1]
 
 \* ---- the ghost queue: order of firing judged against the order of the calls, not against the implementation's heap ----
+\* gq holds every scheduled task as the CALLS (and what fired tasks are known to do) determine it: sorted by time, then by
+\* order of installation.  A pass is walked task by task: each fired task must be the head of the ghost queue and due; it is
+\* taken off, re-armed if recurring, and its effect on another task (TaskDoes) is applied -- so a task that an earlier task of
+\* the same pass suspended or moved must not fire from a stale copy.
 Fired(e) == {e.st.out[i][1] : i \in 1..Len(e.st.out)}
+GEffect(g, k, n) ==
+    LET a == TaskDoes[k] IN
+    CASE a[1] = "suspend" -> Remove(g, a[2])
+      [] a[1] = "at"      -> Insert(Remove(g, a[2]), n + a[3], a[2])
+      [] OTHER            -> g
+RECURSIVE Walk(_, _, _, _)
+Walk(g, o, i, n) ==
+    IF i > Len(o) THEN [why |-> "", g |-> g]
+    ELSE LET k == o[i][1] IN
+         IF ~InQ(g, k) THEN [why |-> "FiresOnlyScheduled", g |-> g]
+         ELSE LET pos == CHOOSE j \in 1..Len(g) : g[j][2] = k IN
+              IF g[pos][1] > n THEN [why |-> "NeverEarly", g |-> g]
+              ELSE IF pos # 1 THEN [why |-> IF g[1][1] = g[pos][1] THEN "FifoAmongEquals" ELSE "FireOrderTime", g |-> g]
+              ELSE LET g1 == Tail(g)
+                       \* (a recurring task that raises is not re-armed: TaskManager.process_task re-installs it after
+                       \*  the task's own process_task has returned)
+                       g2 == IF k \in Rec /\ k \notin TaskRaises THEN Insert(g1, NextSlot(n, Interval[k], Offset[k]), k) ELSE g1
+                       g3 == IF k \in TaskRaises THEN g2 ELSE GEffect(g2, k, n)
+                   IN  Walk(g3, o, i + 1, n)
+GWalk(e) == Walk(gq, e.st.out, 1, e.st.now)
 GhostNext(e) ==
-    CASE e.op = "at" /\ e.k \notin Rec     -> /\ gq' = Insert(Remove(gq, e.k), e.a, e.k) /\ gdue' = [gdue EXCEPT ![e.k] = e.a]
-      [] e.op = "after" /\ e.k \notin Rec  -> /\ gq' = Insert(Remove(gq, e.k), now + e.a, e.k)
-                                             /\ gdue' = [gdue EXCEPT ![e.k] = now + e.a]
-      [] e.op = "suspend" /\ e.k \notin Rec -> gq' = Remove(gq, e.k) /\ UNCHANGED gdue
-      [] e.op = "resume" /\ e.k \notin Rec /\ gdue[e.k] # NONE
-                                           -> gq' = Insert(Remove(gq, e.k), gdue[e.k], e.k) /\ UNCHANGED gdue
-      [] e.op = "run"                      -> gq' = SelectSeq(gq, LAMBDA x : x[2] \notin Fired(e)) /\ UNCHANGED gdue
-      [] OTHER                             -> UNCHANGED <<gq, gdue>>
-GPos(k) == CHOOSE j \in 1..Len(gq) : gq[j][2] = k
-OneShotFired(e) == SelectSeq(e.st.out, LAMBDA x : x[1] \notin Rec)
-\* a one-shot task fires only if the calls scheduled it, and not before the time the calls gave it
-G_NeverEarly(e) == \A i \in 1..Len(OneShotFired(e)) :
-                       \E j \in 1..Len(gq) : gq[j][2] = OneShotFired(e)[i][1] /\ gq[j][1] <= e.st.now
-\* tasks fired in one pass fire in the order of their times, and among equal times in the order the calls installed them
-G_FireOrder(e) == LET o == OneShotFired(e) IN
-                  \A i, j \in 1..Len(o) : (i < j /\ InQ(gq, o[i][1]) /\ InQ(gq, o[j][1]) /\ o[i][1] # o[j][1])
-                                               => GPos(o[i][1]) < GPos(o[j][1])
+    CASE e.op = "at"      -> /\ gq' = Insert(Remove(gq, e.k), e.a, e.k) /\ gdue' = [gdue EXCEPT ![e.k] = e.a]
+      [] e.op = "after"   -> /\ gq' = Insert(Remove(gq, e.k), now + e.a, e.k) /\ gdue' = [gdue EXCEPT ![e.k] = now + e.a]
+      [] e.op = "rec"     -> LET t == NextSlot(now, Interval[e.k], Offset[e.k]) IN
+                             /\ gq' = Insert(Remove(gq, e.k), t, e.k) /\ gdue' = [gdue EXCEPT ![e.k] = t]
+      [] e.op = "suspend" -> gq' = Remove(gq, e.k) /\ UNCHANGED gdue
+      [] e.op = "resume" /\ gdue[e.k] # NONE
+                          -> gq' = Insert(Remove(gq, e.k), gdue[e.k], e.k) /\ UNCHANGED gdue
+      [] e.op = "run"     -> LET w == GWalk(e)
+                                 n == e.st.now
+                                 movers(j) == {k \in Fired(e) \ TaskRaises : TaskDoes[k][1] = "at" /\ TaskDoes[k][2] = j}
+                             IN
+                             \* (after a failed walk the ghost follows the implementation's word on what fired)
+                             /\ gq' = IF w.why = "" THEN w.g ELSE SelectSeq(gq, LAMBDA x : x[2] \notin Fired(e))
+                             /\ gdue' = [j \in K |-> IF movers(j) # {} THEN n + TaskDoes[CHOOSE k \in movers(j) : TRUE][3]
+                                                      ELSE IF j \in Rec /\ j \in Fired(e) \ TaskRaises THEN NextSlot(n, Interval[j], Offset[j])
+                                                      ELSE gdue[j]]
+      [] OTHER            -> UNCHANGED <<gq, gdue>>
 \* unless something raised, nothing the calls made due is left behind by a pass
 G_NothingDueLeft(e) ==
-    (e.op = "run" /\ (\A i \in 1..Len(e.st.out) : e.st.out[i][1] \notin TaskRaises)
+    (e.op = "run" /\ GWalk(e).why = ""
+                  /\ (\A i \in 1..Len(e.st.out) : e.st.out[i][1] \notin TaskRaises)
                   /\ (\A i \in 1..Len(e.st.called) : e.st.called[i] \notin FnRaises))
-        => \A j \in 1..Len(gq) : gq[j][1] <= e.st.now => gq[j][2] \in Fired(e)
+        => \A j \in 1..Len(GWalk(e).g) : GWalk(e).g[j][1] > e.st.now
 GhostFailing(e) ==
-    (IF G_NeverEarly(e) THEN {} ELSE {"NeverEarly"}) \cup
-    (IF G_FireOrder(e) THEN {} ELSE {"FifoAmongEquals"}) \cup
+    (IF e.op = "run" /\ GWalk(e).why # "" THEN {GWalk(e).why} ELSE {}) \cup
     (IF G_NothingDueLeft(e) THEN {} ELSE {"NothingDueLeftUnlessRaise"})
 
 Failing ==
